@@ -650,6 +650,19 @@ func cases(tier, path string) {
 	for _, inner := range [][]byte{le32(0x997275b5), le32(0xbc799737), {}, {1, 2, 3}, append(le32(crcGzip), putMessage(gzipBytes(le32(0x56730bcc)))...)} {
 		w.decU(append(le32(crcGzip), putMessage(gzipBytes(inner))...), nil, "gzip")
 	}
+	// gzip_packed around a bare vector: the packed message is decoded with the caller's hints
+	for _, ht := range hintTypes {
+		v := g.Value(ht, 1, true)
+		r := marshal(v.Interface())
+		if r.class == "ok" {
+			packed := append(le32(crcGzip), putMessage(gzipBytes(r.data))...)
+			w.decU(packed, []reflect.Type{ht}, "gzip-hint-vector")
+			w.decU(packed, nil, "gzip-hint-missing")
+			// rpc_result{req_msg_id, gzip_packed{vector}} as servers send large vector results
+			rr := append(append(le32(0xf35c6d01), []byte{1, 0, 0, 0, 2, 0, 0, 0}...), packed...)
+			w.decU(rr, []reflect.Type{ht}, "gzip-hint-vector")
+		}
+	}
 	w.decU(append(le32(crcGzip), putMessage([]byte{1, 2, 3, 4, 5})...), nil, "gzip-bad")
 	gzok := gzipBytes(le32(0x997275b5))
 	w.decU(append(le32(crcGzip), putMessage(gzok[:len(gzok)-6])...), nil, "gzip-truncated")
